@@ -94,7 +94,8 @@ def classify(row, index=0):
     if not stripped:
         info.kind = 'blank'
         return info
-    if fgtags & DEC_FG or all(ch in BOX_CHARS for ch in info.text):
+    # a decoration row consists of rule/box characters and decoration-coloured cells only
+    if all((TAG.get(c.fg) in DEC_FG) or all(ch in BOX_CHARS for ch in c.ch) for c in row.cells):
         info.kind = 'dec'
         return info
     info.kind = 'text'
